@@ -277,6 +277,10 @@ def gen_cases(ctx):
                 limit = 60000
             for a in sizes_for(limit, cap):
                 add(op="raw", t=t, limit=limit, decl="truthful", actual=a, declared=a, flag=True)
+                if a > limit > 0 and t in ("tcp", "unix"):
+                    # the refused frame is followed, in the same write, by a frame whose body carries complete small
+                    # requests at the offsets where a reader that gulps the refused body could stop
+                    add(op="raw", t=t, limit=limit, decl="truthful", actual=a, declared=a, trail=True)
                 if t in ("tcp", "unix"):
                     add(op="raw", t=t, limit=limit, decl="split", actual=a, declared=a, flag=True)
     # tcp / unix: announcements over the whole 31-bit range of the length field (around every power of two
